@@ -300,7 +300,8 @@ pub fn flate_decode(data: &[u8], params: &LZWFlateParams) -> Result<Vec<u8>> {
     // Then unfilter (PNG)
     // For this, take the old out as input, and write output to out
 
-    if predictor > 10 {
+    // 10..=15 are the PNG predictors; 10 (None on every row) still has a tag byte per row
+    if predictor >= 10 {
         let inp = decoded; // input buffer
         let rows = inp.len() / (stride+1);
         
